@@ -53,7 +53,7 @@ type Expr struct {
 
 var r *rand.Rand
 var nscope int
-var names = []string{"x", "y", "z", "f", "g"}
+var names = []string{"x", "y", "z", "f", "g", "e"} // e: mostly a catch variable / conditionally assigned
 
 func nameIdx(s string) int {
 	for i, n := range names {
@@ -91,7 +91,7 @@ func genScope(parent *Scope, depth int, nparams int, isFn bool) *Scope {
 			s.uses[p] = true
 		}
 	}
-	for _, nm := range names {
+	for _, nm := range names[:5] {
 		if r.Intn(3) == 0 && !isParam(s, nm) {
 			var e *Expr
 			if nm == "f" || nm == "g" {
@@ -108,6 +108,7 @@ func genScope(parent *Scope, depth int, nparams int, isFn bool) *Scope {
 		}
 	}
 	n := 1 + r.Intn(3)
+	readNext := ""
 	for i := 0; i < n; i++ {
 		name := names[r.Intn(len(names))]
 		st := &Stmt{kind: "=", name: name}
@@ -115,14 +116,24 @@ func genScope(parent *Scope, depth int, nparams int, isFn bool) *Scope {
 		case k < 3:
 			// conditional assignment: a later call can find the name uninitialized
 			st.kind = "?"
-			st.c = genExpr(s, depth)
+			if len(s.params) > 0 && r.Intn(2) == 0 {
+				st.c = &Expr{kind: "var", name: s.params[0]}
+			} else {
+				st.c = genExpr(s, depth)
+			}
 			st.e = genExpr(s, depth)
+			if r.Intn(2) == 0 {
+				readNext = name
+			}
 		case k < 5:
 			st.kind = "t"
 			st.e = genExpr(s, depth)
 			st.catch = names[r.Intn(3)]
+			if r.Intn(2) == 0 {
+				st.catch = "e"
+			}
 			s.uses[st.catch] = true
-		case k < 6:
+		case k < 7:
 			st.kind = "r"
 			st.e = genExpr(s, depth)
 			s.body = append(s.body, st)
@@ -134,12 +145,16 @@ func genScope(parent *Scope, depth int, nparams int, isFn bool) *Scope {
 		s.body = append(s.body, st)
 	}
 	s.result = genExpr(s, depth)
+	if readNext != "" {
+		// read the conditionally assigned name afterwards
+		s.result = &Expr{kind: "var", name: readNext}
+	}
 	return s
 }
 
 // genLiteral: a block, or (1 in 6) a nested function literal
 func genLiteral(s *Scope, depth, nparams int) *Expr {
-	if r.Intn(6) == 0 {
+	if r.Intn(4) == 0 {
 		return &Expr{kind: "fn", blk: genScope(s, depth-1, nparams, true)}
 	}
 	return &Expr{kind: "block", blk: genScope(s, depth-1, nparams, false)}
@@ -170,7 +185,7 @@ func genExpr(s *Scope, depth int) *Expr {
 	case k < 2:
 		return &Expr{kind: "num", n: r.Intn(5)}
 	case k < 5:
-		name := pick(s, names[:3])
+		name := pick(s, []string{"x", "y", "z", "e"})
 		if r.Intn(6) == 0 {
 			name = pick(s, names)
 		}
@@ -179,7 +194,7 @@ func genExpr(s *Scope, depth int) *Expr {
 	case k < 6:
 		return &Expr{kind: "add", a: genExpr(s, depth), b: genExpr(s, depth)}
 	case k < 8:
-		name := pick(s, names[3:])
+		name := pick(s, names[3:5])
 		s.uses[name] = true
 		return &Expr{kind: "call", name: name, a: genExpr(s, depth)}
 	default:
